@@ -716,6 +716,9 @@ pub fn run_case(case: Arc<Case>, root: PathBuf) {
         })
     });
     sim::with_rt(|rt| rt.mono = case.mono);
+    if case.io.rate > 0 {
+        sim::arm_io_faults(case.io.seed, case.io.rate, &case.io.sites);
+    }
     if let Err(e) = setup_disk(&case) {
         with_run(|r| r.harness_error = Some(e));
         return;
